@@ -166,3 +166,21 @@ def mval(m, e):
     if z3.is_false(v):
         return False
     return v
+
+
+def base_case(res, st, k, done, cond_fn, what, onm=None):
+    """Base case of a loop-cut induction: the state in which the k-th loop header of the path is first reached (before it
+    is replaced by the arbitrary loop state) must satisfy `cond_fn(arrival)`, under the path condition up to that point.
+    arrival = {'locals': {local: value}, 'idx': cursor, 'pc_len', 'nev', 'fn'}.  Decided once per distinct arrival."""
+    arr = st.notes.get("arrivals", ())
+    if len(arr) <= k:
+        return
+    bb, a = arr[k]
+    if id(a) in done:
+        return
+    done.add(id(a))
+    cond = cond_fn(a)
+    if cond is None:
+        res.violations.append({"what": what + " (state not available at loop entry)", "replayed": None})
+        return
+    res.must_be_unsat(list(st.pc[:a["pc_len"]]) + [z3.Not(cond)], what, onm)
